@@ -232,6 +232,8 @@ func (st *Schema) toIndexColumns(ci []sql.IndexedColumn) []IndexColumn {
 				}
 				c.Collate = collate
 			}
+		} else {
+			c.Collate = col.Collate
 		}
 		cs = append(cs, c)
 	}
